@@ -12,7 +12,7 @@ still mentions which peer and which pubsub:<topic> protections the real BasicCon
   4. TV   TLC runs PeerLifeTrace over the recorded lines and prints every failing predicate.
 """
 import concurrent.futures as cf
-import json, os, random, subprocess, time
+import json, os, random, re, subprocess, time
 from .. import vlib
 
 LEVEL = "model_checking"
@@ -236,12 +236,15 @@ def tlc_jobs(ctx, acc):
         by_len.setdefault(len(s["evs"]), []).append(s["evs"])
     if not by_len:
         raise vlib.Inconclusive("generator emitted nothing")
+    for n in by_len:      # TLC's print order depends on its worker threads: make the pool (and so the seeded sample) reproducible
+        by_len[n].sort(key=lambda evs: json.dumps(evs, sort_keys=True))
     seen, walks = set(), []
     for s in w.printed("SCN"):
         k = json.dumps(s["evs"], sort_keys=True)
         if k not in seen and len({e["p"] for e in s["evs"] if e["p"]}) == 2:
             seen.add(k)
             walks.append(s["evs"])
+    walks.sort(key=lambda evs: json.dumps(evs, sort_keys=True))
     acc["gen"] = {"bfs_max_len": LG, "by_len": {str(k): len(v) for k, v in sorted(by_len.items())}, "two_peer_walks": len(walks)}
     return by_len, walks
 
@@ -315,7 +318,7 @@ def build_driver(ctx):
     return binp
 
 
-def run_shard(ctx, binp, scn_file, i, n, only=None, after=None, tag=""):
+def run_shard(ctx, binp, scn_file, i, n, only=None, after=None, skip=None, tag=""):
     outp = os.path.join(ctx.work, "trace-%d%s.ndjson" % (i, tag))
     mark = os.path.join(ctx.work, "marker-%d%s" % (i, tag))
     env = dict(os.environ)
@@ -325,6 +328,8 @@ def run_shard(ctx, binp, scn_file, i, n, only=None, after=None, tag=""):
         env["VERIF_ONLY"] = str(only)
     if after is not None:
         env["VERIF_AFTER"] = str(after)
+    if skip is not None:
+        env["VERIF_SKIP"] = str(skip)
     p = subprocess.run(["timeout", "1500", binp, "-test.run", "^TestC13Replay$", "-test.timeout", "1400s"], cwd=ctx.work, env=env,
                        stdout=subprocess.PIPE, stderr=subprocess.STDOUT, text=True, errors="replace")
     log = os.path.join(ctx.work, "go-shard-%d%s.log" % (i, tag))
@@ -342,7 +347,7 @@ def replay(ctx, binp, scns):
     n = max(1, min(vlib.NCPU, 8, len(scns) // 50 + 1))
 
     def shard(i):
-        paths, dead = [], []
+        paths, dead, resume_from, flaky = [], [], [-1], []
         r = run_shard(ctx, binp, scn_file, i, n)
         k = 0
         while True:
@@ -357,20 +362,48 @@ def replay(ctx, binp, scns):
             again = run_shard(ctx, binp, scn_file, i, n, only=sid, tag="-only%d" % k)
             lib_panic = again["rc"] != 0 and "panic:" in again["out"] and "go-libp2p-pubsub" in again["out"] \
                 and "verifharness" not in again["out"].split("panic:")[1][:400]
-            dead.append((int(sid), lib_panic, again["log"] if lib_panic else r["log"]))
-            r = run_shard(ctx, binp, scn_file, i, n, after=sid, tag="-r%d" % k)
-        return paths, dead
+            if again["rc"] == 0 and last_complete(again["trace"]) == int(sid):
+                # it does not reproduce alone: keep the complete recording of the lone run, mention the death
+                paths.append(again["trace"])
+                flaky.append((int(sid), r["log"]))
+            else:
+                dead.append((int(sid), lib_panic, again["log"] if lib_panic else r["log"]))
+            # resume behind the last lifecycle this shard recorded completely (the output is buffered: lifecycles that
+            # ran before the death may be missing from the file), leaving out the one it died in
+            last = last_complete(r["trace"])
+            if last is None and not paths:
+                last = -1
+            elif last is None:
+                last = resume_from[-1]
+            resume_from.append(last)
+            r = run_shard(ctx, binp, scn_file, i, n, after=(last if last >= 0 else None), skip=sid, tag="-r%d" % k)
+        return paths, dead, flaky
 
     with cf.ThreadPoolExecutor(max_workers=n) as ex:
         res = list(ex.map(shard, range(n)))
-    paths = [p for ps, _ in res for p in ps]
-    dead = [d for _, ds in res for d in ds]
+    paths = [p for ps, _, _ in res for p in ps]
+    dead = [d for _, ds, _ in res for d in ds]
+    for sid, log in [f for _, _, fs in res for f in fs]:
+        ctx.notes.append("the driver died once in lifecycle %d (see %s); replayed alone it completed and was judged" % (sid, log))
     for sid, lib_panic, log in dead:
         if lib_panic:
             scn = next((s for s in scns if s["id"] == sid), None)
             vlib.add_violation(ctx, "P_C13_NoCrash", {"c": "panic", "cond": "none"},
                                "the node panics while replaying lifecycle %s (see %s)" % (sid, log), {"scenario": scn})
     return paths, dead
+
+
+def last_complete(path):
+    """Id of the last lifecycle whose final line is in a (possibly cut short) trace file."""
+    last = None
+    if os.path.exists(path):
+        with open(path, "rb") as f:
+            for raw in f:
+                if b'"fin":true' in raw and raw.endswith(b"}\n"):
+                    m = re.search(rb'"scn":(\d+)', raw)
+                    if m:
+                        last = int(m.group(1))
+    return last
 
 
 VERDICTS = ("Deliver", "Reject", "Duplicate")
@@ -511,7 +544,7 @@ def stream_and_validate(ctx, paths, scn_by_id, acc):
     """One pass over the recorded traces: lifecycle by lifecycle (contiguous in a shard's file) check completeness, update the
     obligations, append the projection PeerLifeTrace reads to the current chunk and hand full chunks to TLC while reading goes on."""
     CHUNK = 1200
-    obl, index, done, incomplete, samples = Obligations(), {}, set(), [], []
+    obl, index, done, incomplete, samples = Obligations(), {}, set(), set(), []
     futures = []
     state = {"ci": 0, "n": 0, "rows": 0, "f": None, "path": None}
     ex = cf.ThreadPoolExecutor(max_workers=max(1, min(vlib.NCPU // 2, 5)))
@@ -525,11 +558,15 @@ def stream_and_validate(ctx, paths, scn_by_id, acc):
 
     def finish_scn(rows, where):
         sid = rows[0]["scn"]
+        if rows[0]["act"].get("a") != "reset" or not rows[-1]["act"].get("fin"):
+            if sid not in done:
+                incomplete.add(sid)     # cut short by a driver that died (it may be recorded completely by the resumed run)
+            return
+        if sid in done:
+            return
         index[sid] = where
         done.add(sid)
-        if rows[0]["act"].get("a") != "reset" or not rows[-1]["act"].get("fin"):
-            incomplete.append(sid)
-            return
+        incomplete.discard(sid)
         obl.update(scn_by_id[sid], rows)
         if state["f"] is None:
             state["path"] = os.path.join(ctx.work, "tv-%d.ndjson" % state["ci"])
@@ -596,7 +633,8 @@ def run(ctx):
     scn_by_id = {s["id"]: s for s in scns}
     ctx.log("replayed; validating the recorded lines with TLC")
     viols, drifts, obl, index, done, incomplete, samples = stream_and_validate(ctx, paths, scn_by_id, acc)
-    missing = [s["id"] for s in scns if s["id"] not in done]
+    incomplete = sorted(incomplete)
+    missing = [s["id"] for s in scns if s["id"] not in done and s["id"] not in incomplete]
     ctx.log("validated %d lines of %d lifecycles" % (acc["lines"], len(done)))
 
     # every failing predicate instance -> a violation with a signature keyed by container and condition
@@ -645,7 +683,7 @@ def run(ctx):
         f = features(s["evs"])
         if any(x.startswith("send:") for x in f) or f & {"outFirst", "inFirst", "dup", "blMid", "outFail", "outReset"}:
             nontrivial.add(json.dumps([s["router"], s["peers"], s["evs"]], sort_keys=True))
-    cov = {"states": acc["states"], "transitions": acc["transitions"], "traces_validated_against_impl": len(done) - len(incomplete),
+    cov = {"states": acc["states"], "transitions": acc["transitions"], "traces_validated_against_impl": len(done),
            "samples": samples, "evaluations": acc["lines"] * 2, "distinct_nontrivial": len(nontrivial),
            "rule": "one evaluation = the predicates of PeerLifeTrace on one recorded line for one lifecycle peer; a lifecycle is non-trivial if it "
                    "contains an RPC or a stream fault (reset / failed open / duplicate / blacklist) and distinct by (router, peer parameters, events)",
